@@ -274,7 +274,18 @@ fn gcop() -> BoxedStrategy<COp> {
 }
 
 fn gcase() -> BoxedStrategy<CkCase> {
-    (proptest::collection::vec(gcop(), 0..=8), proptest::collection::vec(any::<u8>(), 0..=64), gchoices())
+    let ops = prop_oneof![
+        30 => proptest::collection::vec(gcop(), 0..=8),
+        // more than 64 algorithms, inserted in descending order, followed by a few more operations
+        1 => (65usize..=90, proptest::collection::vec(gcop(), 0..=3)).prop_map(|(n, tail)| {
+            let mut v: Vec<COp> = (0..n).rev().map(|i| COp::Insert(format!("h{i:02}"), vec![i as u8])).collect();
+            v.extend(tail);
+            v
+        }),
+        // one very long digest
+        1 => (proptest::collection::vec(any::<u8>(), 120..=300), any::<bool>()).prop_map(|(b, up)| vec![if up { COp::InsertRawUpper("shake256".into(), b) } else { COp::Insert("shake256".into(), b) }]),
+    ];
+    (ops, proptest::collection::vec(any::<u8>(), 0..=64), gchoices())
         .prop_map(|(ops, orders, spelling)| CkCase { ops, orders, spelling })
         .boxed()
 }
